@@ -274,6 +274,13 @@ def check(fx, rep, tier):
         for k, x in m.items():
             both = re.search(r"PartialEq\s*=\s*\"ignore\"", x) and re.search(r"Hash\s*=\s*\"ignore\"", x)
             rep.oblige(bool(both), "R20.3", f"eq-hash-agree:{a}:{k}", "-", f"`{a}::{k}` is ignored by only one of PartialEq / Hash ({x}): equal values would hash differently")
+    # `nested to any depth`: the entry type is recursive (two JSON levels per type level) and the standard reader gives up at 128
+    # levels, so a reported type nested 64 deep is written but cannot be read back. Nothing in the serialised types can change
+    # that; what can is a bound on the depth of reported types, where they are produced - the conversion of resolved types into
+    # reported ones (C01 R01.3: a recursion that ends through a seen set also bounds its depth).
+    from .. import core as _core20
+
+    _core20.import_rules(rep, fx, "C01", "R20.3", only_rules=("R01.3",), floor=1, what="the depth bound of the conversion into reported types (C01 R01.3 recursion-depth)", key_filter=lambda k: "recursion-depth" in k and "abi_type" in k)
     rep.exhaustive = True
     return rep.finish(
         "Writer/reader agreement by construction over the type closure of a layout entry: presence of both serde impls per type, "
